@@ -21,7 +21,7 @@ def render(rnd, depth):
         n = rnd.choice([0, 1, 10, 255, 4096, rnd.randint(0, 2 ** 31 - 1)])
         return str(n) if c < 0.7 else ('#x%x' % n if c < 0.85 else '#x%X' % n)
     items = [render(rnd, depth - 1) for _ in range(rnd.randint(0, 4))]
-    sep = rnd.choice([' ', '  ', '\n', '\t '])
+    sep = rnd.choice([' ', '  ', '\n', '\t ', '\v', '\f', '\r\n', ' \f\v '])
     pad = rnd.choice(['', '', ' '])
     return '(' + pad + sep.join(items) + pad + ')'
 
@@ -38,7 +38,7 @@ def e2(rnd, count):
                     i = rnd.randrange(len(b))
                     m = rnd.random()
                     if m < 0.4:
-                        b[i] = rnd.choice(ALPH + [9, 10, 48, 57, 65, 102, 103, 126, 127, 200])
+                        b[i] = rnd.choice(ALPH + [9, 10, 11, 12, 13, 48, 57, 65, 102, 103, 126, 127, 200])
                     elif m < 0.7:
                         del b[i]
                         if not b:
@@ -46,7 +46,7 @@ def e2(rnd, count):
                     else:
                         b.insert(i, rnd.choice(ALPH))
             elif k < 0.45:
-                b = [rnd.choice(ALPH + [9, 10, 48, 98, 102, 71]) for _ in range(rnd.randint(0, 12))]
+                b = [rnd.choice(ALPH + [9, 10, 11, 12, 13, 48, 98, 102, 71]) for _ in range(rnd.randint(0, 12))]
             elif k < 0.5:
                 b = b[:rnd.randint(0, len(b))]
             b = [x for x in b if x != 0][:300]
